@@ -66,9 +66,25 @@ def run(run):
     n = run.n(3000, 200000)
     for _ in range(n):
         m = rng.random()
-        if m < 0.6:
+        if m < 0.45:
             z = rng.uniform(-1, 1)
             pts.append((rng.uniform(-math.pi, math.pi), math.acos(z)))
+        elif m < 0.6:
+            # next to one of the 20 dodecahedron vertices (three faces meet): 1e-9 .. 1e-3 rad away in a random direction
+            i = rng.randrange(12)
+            nb = [j for j in range(12) if j != i and abs(dot(centres[i], centres[j]) - s5) < 1e-9]
+            j = rng.choice(nb)
+            nk = [k for k in nb if k != j and abs(dot(centres[k], centres[j]) - s5) < 1e-9]
+            k = rng.choice(nk)
+            v = [a_ + b_ + c_ for a_, b_, c_ in zip(centres[i], centres[j], centres[k])]
+            nrm = math.sqrt(dot(v, v)); v = [x / nrm for x in v]
+            d = [rng.gauss(0, 1) for _ in range(3)]
+            dv = dot(d, v); d = [x - dv * y for x, y in zip(d, v)]
+            dn = math.sqrt(dot(d, d)) or 1.0
+            e = 10 ** rng.uniform(-9, -3)
+            p = [x + e * y / dn for x, y in zip(v, d)]
+            nrm = math.sqrt(dot(p, p)); p = [x / nrm for x in p]
+            pts.append((math.atan2(p[1], p[0]), math.acos(max(-1.0, min(1.0, p[2])))))
         else:
             i = rng.randrange(12)
             nb = [j for j in range(12) if j != i and abs(dot(centres[i], centres[j]) - s5) < 1e-9]
@@ -177,7 +193,7 @@ def run(run):
         if ds[0][0] - ds[1][0] < 1e-6:
             run.nontrivial.add((t, p))
     run.rule = ("frame read from the running library (66 pairwise dot products), base-cell centres and pole lookups, all 12 x 5 relabellings in both directions, continuity of the curve across the segments of every face (r = 2, 3, 5), and nearest-face selection "
-                "against a direct 3-D dot-product argmax on uniform points (60%) and points within 1e-12..1e-7 of a seam between two neighbouring faces (40%); non-trivial = distinct points within 1e-6 of a seam that were decided")
+                "against a direct 3-D dot-product argmax on uniform points (45%), points 1e-9..1e-3 rad from the 20 dodecahedron vertices (15%) and points within 1e-12..1e-7 of a seam between two neighbouring faces (40%); non-trivial = distinct points within 1e-6 of a seam that were decided")
     run.samples = [{"request": reqs[i], "impl": impl[i][:120], "model": model[i][:120]} for i in rng.sample(range(len(reqs)), 6)]
     run.extra["seam_ties_skipped"] = ties
     run.extra["points"] = len(pts)
